@@ -313,6 +313,21 @@ func Run(r *fw.Run) {
 		}, func() { r.Merge(l) }
 	})
 	r.Sample(map[string]any{"kind": "match", "globs": "a/*,b", "target": "a/b/a", "result": module.MatchPrefixPatterns("a/*,b", "a/b/a")})
+	// byte sweep over globs and targets: every byte value in a glob slot against matching-looking targets
+	{
+		l := fw.NewLocal()
+		for c := 0; c < 256; c++ {
+			f := string([]byte{byte(c)})
+			for _, g := range []string{f, "a" + f + "c", "a" + f, f + "c", "a/" + f + "c", "x," + f + "c", "a" + f + "c/d", "[" + f + "]", "[a-" + f + "]", "\\" + f} {
+				for _, t := range []string{f, "a" + f + "c", "abc", "ac", "a/c", "a" + f, f + "c", "a" + f + "c/d", "a" + f + "c/d/e", "a/" + f + "c/x"} {
+					l.States++
+					l.Transitions++
+					checkMatch(r, l, g, t)
+				}
+			}
+		}
+		r.Merge(l)
+	}
 }
 
 func Replay(r *fw.Run, raw json.RawMessage) {
